@@ -550,6 +550,176 @@ theorem sortAttrs_perm (l : List (Str × Str)) : (sortAttrs l).Perm l := by
     simp only [sortAttrs]
     exact (insertAttr_perm x _).trans (List.Perm.cons x ih)
 
+/-! ### processing instructions -/
+
+theorem encodeChar_no_gt (c : Char) : ∀ x ∈ encodeChar c, x ≠ '>' := by
+  by_cases h1 : c = '<'; · subst h1; decide
+  by_cases h2 : c = '>'; · subst h2; decide
+  by_cases h3 : c = '&'; · subst h3; decide
+  by_cases h4 : c = '\''; · subst h4; decide
+  by_cases h5 : c = '"'; · subst h5; decide
+  unfold encodeChar; rw [entityOf_none h1 h2 h3 h4 h5]; simp only
+  have dg : ∀ x, isDigit x = true → x ≠ '>' := by
+    intro x hx e; subst e; revert hx; decide
+  by_cases hlt : c.toNat < 32
+  · rw [if_pos hlt]
+    intro x hx
+    simp only [pad3, List.cons_append, List.nil_append, List.mem_cons, List.not_mem_nil, or_false] at hx
+    rcases hx with rfl | rfl | rfl | rfl | rfl | rfl
+    · decide
+    · decide
+    · exact dg _ (isDigit_digitChar (by omega))
+    · exact dg _ (isDigit_digitChar (by omega))
+    · exact dg _ (isDigit_digitChar (by omega))
+    · decide
+  · rw [if_neg hlt]
+    by_cases h128 : c.toNat < 128
+    · rw [if_pos h128]; intro x hx; simp at hx; subst hx; exact h2
+    · rw [if_neg h128]
+      intro x hx
+      simp only [List.cons_append, List.nil_append, List.mem_cons, List.mem_append, List.not_mem_nil, or_false] at hx
+      rcases hx with rfl | rfl | hx | rfl
+      · decide
+      · decide
+      · exact dg _ (decimal_digits _ x hx)
+      · decide
+
+theorem encodeL_no_gt (s : Str) : ∀ x ∈ encodeL s, x ≠ '>' := by
+  intro x hx
+  simp only [encodeL, List.mem_flatMap] at hx
+  obtain ⟨c, _, hxc⟩ := hx
+  exact encodeChar_no_gt c x hxc
+
+/-- an ASCII name character is written as itself -/
+theorem encodeChar_asciiName {c : Char} (hn : nameChar c = true) (ha : c.toNat < 128) : encodeChar c = [c] := by
+  have hr : 45 ≤ c.toNat ∧ c.toNat ≠ 60 ∧ c.toNat ≠ 62 := by
+    simp [nameChar, nameCharN, nameStartN] at hn; omega
+  have h1 : c ≠ '<' := by intro e; subst e; exact hr.2.1 (by decide)
+  have h2 : c ≠ '>' := by intro e; subst e; exact hr.2.2 (by decide)
+  have h3 : c ≠ '&' := by intro e; subst e; revert hn; decide
+  have h4 : c ≠ '\'' := by intro e; subst e; revert hn; decide
+  have h5 : c ≠ '"' := by intro e; subst e; revert hn; decide
+  unfold encodeChar; rw [entityOf_none h1 h2 h3 h4 h5]; simp only
+  rw [if_neg (by omega), if_pos ha]
+
+theorem encodeL_asciiName (t : Str) (hn : ∀ c ∈ t, nameChar c = true) (ha : ∀ c ∈ t, c.toNat < 128) : encodeL t = t := by
+  induction t with
+  | nil => rfl
+  | cons c r ih =>
+    simp only [encodeL, List.flatMap_cons]
+    rw [encodeChar_asciiName (hn c (by simp)) (ha c (by simp))]
+    have := ih (fun x hx => hn x (by simp [hx])) (fun x hx => ha x (by simp [hx]))
+    simp only [encodeL] at this
+    rw [this]; rfl
+
+theorem run_piTarget (n acc : Str) (stk : List Str) (rd : Bool) (evs : List Event) (hn : ∀ c ∈ n, nameChar c = true) :
+    runM ⟨.piTarget acc, stk, rd, evs⟩ n = some ⟨.piTarget (n.reverse ++ acc), stk, rd, evs⟩ := by
+  induction n generalizing acc with
+  | nil => simp [runM]
+  | cons c r ih =>
+    simp only [runM, step, hn c (by simp), if_true]
+    rw [ih _ (fun c hc => hn c (by simp [hc]))]; simp
+
+theorem run_piData (t : Str) (l : Str) (hl : ∀ x ∈ l, xmlChar x = true ∧ x ≠ '>') : ∀ (acc : Str) (q : Bool),
+    ∃ d, ∀ (stk : List Str) (rd : Bool) (evs : List Event),
+      runM ⟨.piData t acc q, stk, rd, evs⟩ (l ++ ['?', '>']) = some ⟨.content, stk, rd, .pi t d :: evs⟩ := by
+  induction l with
+  | nil =>
+    intro acc q
+    cases q
+    · exact ⟨acc.reverse, fun stk rd evs => by simp [runM, step]⟩
+    · exact ⟨('?' :: acc).reverse, fun stk rd evs => by simp [runM, step]⟩
+  | cons c r ih =>
+    intro acc q
+    obtain ⟨hx, hg⟩ := hl c (by simp)
+    have hr : ∀ x ∈ r, xmlChar x = true ∧ x ≠ '>' := fun x h => hl x (by simp [h])
+    by_cases hc : c = '?'
+    · subst hc
+      cases q
+      · obtain ⟨d, hd⟩ := ih hr acc true
+        exact ⟨d, fun stk rd evs => by
+          have : runM ⟨.piData t acc false, stk, rd, evs⟩ ['?'] = some ⟨.piData t acc true, stk, rd, evs⟩ := by simp [runM, step]
+          rw [show '?' :: r ++ ['?', '>'] = ['?'] ++ (r ++ ['?', '>']) from rfl, runM_append_of this]; exact hd stk rd evs⟩
+      · obtain ⟨d, hd⟩ := ih hr ('?' :: acc) true
+        exact ⟨d, fun stk rd evs => by
+          have : runM ⟨.piData t acc true, stk, rd, evs⟩ ['?'] = some ⟨.piData t ('?' :: acc) true, stk, rd, evs⟩ := by simp [runM, step]
+          rw [show '?' :: r ++ ['?', '>'] = ['?'] ++ (r ++ ['?', '>']) from rfl, runM_append_of this]; exact hd stk rd evs⟩
+    · cases q
+      · obtain ⟨d, hd⟩ := ih hr (c :: acc) false
+        exact ⟨d, fun stk rd evs => by
+          have : runM ⟨.piData t acc false, stk, rd, evs⟩ [c] = some ⟨.piData t (c :: acc) false, stk, rd, evs⟩ := by
+            simp [runM, step, hc, hx]
+          rw [show c :: r ++ ['?', '>'] = [c] ++ (r ++ ['?', '>']) from rfl, runM_append_of this]; exact hd stk rd evs⟩
+      · obtain ⟨d, hd⟩ := ih hr (c :: '?' :: acc) false
+        exact ⟨d, fun stk rd evs => by
+          have : runM ⟨.piData t acc true, stk, rd, evs⟩ [c] = some ⟨.piData t (c :: '?' :: acc) false, stk, rd, evs⟩ := by
+            simp [runM, step, hc, hx, hg]
+          rw [show c :: r ++ ['?', '>'] = [c] ++ (r ++ ['?', '>']) from rfl, runM_append_of this]; exact hd stk rd evs⟩
+
+theorem run_piWS (t : Str) (l : Str) (hl : ∀ x ∈ l, xmlChar x = true ∧ x ≠ '>') :
+    ∃ d, ∀ (stk : List Str) (rd : Bool) (evs : List Event),
+      runM ⟨.piWS t, stk, rd, evs⟩ (l ++ ['?', '>']) = some ⟨.content, stk, rd, .pi t d :: evs⟩ := by
+  induction l with
+  | nil => exact ⟨[], fun stk rd evs => by simp [runM, step, show isS '?' = false by decide]⟩
+  | cons c r ih =>
+    obtain ⟨hx, hg⟩ := hl c (by simp)
+    have hr : ∀ x ∈ r, xmlChar x = true ∧ x ≠ '>' := fun x h => hl x (by simp [h])
+    by_cases hs : isS c = true
+    · obtain ⟨d, hd⟩ := ih hr
+      exact ⟨d, fun stk rd evs => by
+        have : runM ⟨.piWS t, stk, rd, evs⟩ [c] = some ⟨.piWS t, stk, rd, evs⟩ := by simp [runM, step, hs]
+        rw [show c :: r ++ ['?', '>'] = [c] ++ (r ++ ['?', '>']) from rfl, runM_append_of this]; exact hd stk rd evs⟩
+    · by_cases hc : c = '?'
+      · subst hc
+        obtain ⟨d, hd⟩ := run_piData t r hr [] true
+        exact ⟨d, fun stk rd evs => by
+          have : runM ⟨.piWS t, stk, rd, evs⟩ ['?'] = some ⟨.piData t [] true, stk, rd, evs⟩ := by simp [runM, step, hs]
+          rw [show '?' :: r ++ ['?', '>'] = ['?'] ++ (r ++ ['?', '>']) from rfl, runM_append_of this]; exact hd stk rd evs⟩
+      · obtain ⟨d, hd⟩ := run_piData t r hr [c] false
+        exact ⟨d, fun stk rd evs => by
+          have : runM ⟨.piWS t, stk, rd, evs⟩ [c] = some ⟨.piData t [c] false, stk, rd, evs⟩ := by simp [runM, step, hs, hc, hx]
+          rw [show c :: r ++ ['?', '>'] = [c] ++ (r ++ ['?', '>']) from rfl, runM_append_of this]; exact hd stk rd evs⟩
+
+/-- what the caller owes for `pI(s)`: `s` is an ASCII PI target (a Name other than `xml`; the writer would turn a
+non-ASCII name character into a reference), alone or followed by one blank and arbitrary data -/
+def PiOk (s : Str) : Prop :=
+  ∃ t d, validTarget t = true ∧ (∀ c ∈ t, c.toNat < 128) ∧ (s = t ∨ s = t ++ ' ' :: d)
+
+/-- `<?target data?>` from content: accepted, and the target is reported unchanged -/
+theorem run_pi (s : Str) (h : PiOk s) :
+    ∃ t d', (∀ c ∈ t, c ≠ ' ') ∧ (s = t ∨ ∃ d, s = t ++ ' ' :: d) ∧ ∀ (stk : List Str) (rd : Bool) (evs : List Event),
+      runM ⟨.content, stk, rd, evs⟩ (['<', '?'] ++ encodeL s ++ ['?', '>']) = some ⟨.content, stk, rd, .pi t d' :: evs⟩ := by
+  obtain ⟨t, d, hv, ha, hs⟩ := h
+  have hvn : validName t = true := by simp [validTarget] at hv; exact hv.1
+  have hall : ∀ c ∈ t, nameChar c = true := by
+    cases t with
+    | nil => simp [validName] at hvn
+    | cons c r =>
+      obtain ⟨hs', hr⟩ := validName_cons hvn
+      intro x hx; simp at hx; rcases hx with rfl | hx
+      · exact nameStart_nameChar hs'
+      · exact hr x hx
+  have hsp : ∀ c ∈ t, c ≠ ' ' := fun c hc => (nameChar_not_special (hall c hc)).2.2.2.1
+  have e1 : ∀ stk rd evs, runM ⟨.content, stk, rd, evs⟩ ['<', '?'] = some ⟨.piTarget [], stk, rd, evs⟩ := fun _ _ _ => rfl
+  have et := encodeL_asciiName t hall ha
+  rcases hs with hs | hs
+  · refine ⟨t, [], hsp, Or.inl hs, fun stk rd evs => ?_⟩
+    rw [hs, et, List.append_assoc, runM_append_of (e1 stk rd evs), runM_append_of (run_piTarget t [] stk rd evs hall)]
+    simp [runM, step, hv, show nameChar '?' = false by decide, show isS '?' = false by decide]
+  · have hl : ∀ x ∈ encodeL d, xmlChar x = true ∧ x ≠ '>' := fun x hx => ⟨encodeL_xml d x hx, encodeL_no_gt d x hx⟩
+    obtain ⟨d', hd'⟩ := run_piWS t (encodeL d) hl
+    refine ⟨t, d', hsp, Or.inr ⟨d, hs⟩, fun stk rd evs => ?_⟩
+    have esp : encodeL (t ++ ' ' :: d) = t ++ ' ' :: encodeL d := by
+      simp only [encodeL, List.flatMap_append, List.flatMap_cons]
+      have := et; simp only [encodeL] at this; rw [this]
+      rfl
+    have e2 : runM ⟨.piTarget (t.reverse ++ []), stk, rd, evs⟩ [' '] = some ⟨.piWS t, stk, rd, evs⟩ := by
+      simp [runM, step, hv, show nameChar ' ' = false by decide, show isS ' ' = true by decide]
+    rw [hs, esp, List.append_assoc, runM_append_of (e1 stk rd evs)]
+    rw [show (t ++ ' ' :: encodeL d) ++ ['?', '>'] = t ++ ([' '] ++ (encodeL d ++ ['?', '>'])) by simp]
+    rw [runM_append_of (run_piTarget t [] stk rd evs hall), runM_append_of e2]
+    exact hd' stk rd evs
+
 /-! ### hypotheses and invariant -/
 
 /-- what the caller must respect for one call (the writer does not escape names, and `literal` writes raw text) -/
@@ -560,7 +730,7 @@ def OpOk : Op → Prop
   | .comment _ => True
   | .stop _ => True
   | .spacePreserve => True
-  | .pi _ => False
+  | .pi s => PiOk s
   | .charsBr _ => False
 
 /-- exactly one document element: no start tag at depth 0 once the document element is closed, and at the end
@@ -796,7 +966,18 @@ theorem sim_step {w w' : WState} {p : PState} {op : Op} {chunk : Str} (h : Inv w
     · rename_i x r hr
       cases hs
       refine ⟨p, rfl, h.transfer rfl rfl (by simp [hr]) rfl rfl, by simp, rfl, by simp⟩
-  | pi s => exact absurd hok (by simp [OpOk])
+  | pi s =>
+    have hs' : (match w.closeIfOpen.1.flipIndent false with
+        | .error e => .error e
+        | .ok w2 => .ok (w2, w.closeIfOpen.2 ++ ['<', '?'] ++ encodeL s ++ ['?', '>'])) = Except.ok (w', chunk) := hs
+    cases hf : w.closeIfOpen.1.flipIndent false with
+    | error e => rw [hf] at hs'; cases hs'
+    | ok w2 =>
+      rw [hf] at hs'; cases hs'
+      obtain ⟨t, d', _, _, hrun⟩ := run_pi s hok
+      obtain ⟨p', r, i, rd, l⟩ := sim_text h hf (['<', '?'] ++ encodeL s ++ ['?', '>'])
+        (fun a stk rd evs => ⟨_, hrun (a :: stk) rd evs⟩)
+      exact ⟨p', by simpa [List.append_assoc] using r, i, by simp [rd], by simp [l], by simp⟩
   | charsBr s => exact absurd hok (by simp [OpOk])
 
 theorem sim_run (ops : List Op) : ∀ {w w' : WState} {p : PState} {chunk : Str}, Inv w p → runW w ops = .ok (w', chunk) →
